@@ -837,6 +837,8 @@ def long_run_cases(draw):
     d = draw(st.integers(1, 2)) if cls != "pca" else draw(st.integers(1, 2))
     return {"seed": draw(st.integers(0, 2**31)), "cls": cls, "d": d, "shape": draw(st.sampled_from(["flat", "broad", "broad"])),
             "rel_sd": draw(st.floats(0.7, 3.0)), "lo": [draw(st.floats(-2, 2)) for _ in range(d)], "side": [10 ** draw(st.floats(-1, 1)) for _ in range(d)],
+            # how the two limits of a Gibbs parameter are declared: as boundaries, or as non-negativity plus an upper boundary alone
+            "limit_style": draw(st.sampled_from(["boundaries", "boundaries", "nonneg-then-upper", "upper-then-nonneg"])),
             "T": draw(st.sampled_from([1.0, 1.0, 10.0])), "steps": draw(st.sampled_from([4500, 6000])) if cls != "hmc" else draw(st.sampled_from([1200, 2000]))}
 
 
@@ -851,6 +853,9 @@ def body_long_run(case, ctx):
     cls, d = case["cls"], case["d"]
     side = np.array(case["side"])
     lo = np.array(case["lo"]) * side
+    style = case.get("limit_style", "boundaries") if cls == "gibbs" else "boundaries"
+    if style != "boundaries":
+        lo = np.zeros(d)
     hi = lo + side
     centre = 0.5 * (lo + hi)
     sd = case["rel_sd"] * side
@@ -871,7 +876,14 @@ def body_long_run(case, ctx):
         if cls == "gibbs":
             ch = GibbsChain(posterior=logp, start=centre.copy(), widths=0.3 * side, temperature=T, display_progress=False)
             for i in range(d):
-                ch.set_boundaries(i, (float(lo[i]), float(hi[i])))
+                if style == "boundaries":
+                    ch.set_boundaries(i, (float(lo[i]), float(hi[i])))
+                elif style == "nonneg-then-upper":
+                    ch.set_non_negative(i, True)
+                    ch.set_boundaries(i, (-np.inf, float(hi[i])))
+                else:
+                    ch.set_boundaries(i, (-np.inf, float(hi[i])))
+                    ch.set_non_negative(i, True)
         elif cls == "pca":
             ch = PcaChain(posterior=logp, start=centre.copy(), widths=0.3 * side, temperature=T, bounds=(lo.copy(), hi.copy()), display_progress=False)
         else:
@@ -906,6 +918,8 @@ def body_long_run(case, ctx):
     ctx.event("cls=" + cls)
     ctx.event("shape=" + case["shape"])
     ctx.event(f"T={T:g}")
+    if cls == "gibbs":
+        ctx.event("limits declared as " + style)
 
 
 def _pt_cases():
@@ -938,9 +952,9 @@ SUBCHECKS = [
         rule=">= 3 stored moves taken with unstable step sizes"),
     Sub("tempering", lambda t: _pt_cases(), _pt_body, quick=48, thorough=1500, shards_quick=16, shards_thorough=16, weight=60,
         rule=">= 1 accepted and >= 1 rejected exchange with N >= 3"),
-    Sub("adapted-pca-box", lambda t: adapted_pca_cases(), body_adapted_pca, quick=16, thorough=200, shards_quick=16, shards_thorough=16, weight=1500,
+    Sub("adapted-pca-box", lambda t: adapted_pca_cases(), body_adapted_pca, quick=24, thorough=200, shards_quick=8, shards_thorough=16, weight=1500,
         shrink=False, case_timeout=(300, 900), rule="principal directions oblique to the axes (largest component below 0.95)"),
-    Sub("long-run", lambda t: long_run_cases(), body_long_run, quick=32, thorough=400, shards_quick=16, shards_thorough=16, weight=800,
+    Sub("long-run", lambda t: long_run_cases(), body_long_run, quick=48, thorough=400, shards_quick=8, shards_thorough=16, weight=800,
         shrink=False, case_timeout=(300, 900), rule="every case (thousands of steps on a bounded parameter with a broad or flat density)"),
     Sub("full-step", lambda t: law_configs(classes=("metropolis", "gibbs", "ensemble") if t == "quick" else ("metropolis", "gibbs", "ensemble", "pca", "hmc")), body_full_step, quick=32, thorough=160, shards_quick=8, shards_thorough=16,
         weight=3000, shrink_budget=(5, 30), case_timeout=(600, 1800), shrink=False, rule="T != 1 or limits / bounds or d >= 2"),
